@@ -170,6 +170,16 @@ def schedules(fam):
                   {"op": "reset", "acc": ["e"], "settle": True}, {"op": "reset", "acc": ["e"], "settle": True}]
         steps += [{"op": "reply", "t": "access", "pick": 3, "out": "deny", "settle": True}] * 4 + [Q]
         out.append(S(fam, "many", steps))
+    if fam.startswith("thr-reset"):
+        # a query resource loses its last subscriber while its re-fetch waits in the reset throttle: whatever the
+        # gateway does with that re-fetch, the requests queued behind it must still be sent
+        st2 = dict(settle=True)
+        for first in ("e", "q?a=1"):
+            second = "q?a=1" if first == "e" else "e"
+            out.append(S(fam, "unsubqueued-" + first[0],
+                         [opn("c1"), opn("c2"), dict(sub("c1", first), **st2), dict(sub("c1", second), **st2), dict(sub("c2", "b"), **st2), Q,
+                          {"op": "reset", "res": [">"], "acc": [">"], "settle": True}, dict(unsub("c1", "q?a=1"), **st2)] +
+                         [{"op": "reply", "t": "", "pick": 0, "settle": True}] * 12 + [Q, ev("e", "custom"), ev("b", "custom"), Q]))
     if fam == "access":
         st = dict(settle=True)
         tk = lambda t: {"op": "token", "c": "c1", "tok": t, "tid": "tid1", "settle": True}
@@ -199,6 +209,12 @@ def schedules(fam):
         out.append(S(fam, "stalecache2", [opn("c1"), tk('"t1"'), dict(sub("c1", "a"), **st), Q, call("b"), ev("b", "reaccess", **st),
                                           dict(reply("access", "b"), **st), dict(reply("call", "b"), **st), Q,
                                           call("b"), dict(reply("call", "b"), **st), dict(reply("access", "b", out="deny"), **st), Q]))
+        # a token reset listing an empty token id must not reach connections without a token id (no token, or a token set
+        # without one); a listed id reaches exactly its connection
+        tkc = lambda c, t, tid: {"op": "token", "c": c, "tok": t, "tid": tid, "settle": True}
+        out.append(S(fam, "emptytid", [opn("c1"), opn("c2"), {"op": "open", "c": "c3", "ver": "latest"}, tkc("c1", '"t1"', "tid1"), tkc("c2", '"t2"', ""),
+                                       {"op": "tokenreset", "tids": ["", "tid1"], "settle": True}, dict(reply("auth", "tokenreset"), **st), Q,
+                                       {"op": "tokenreset", "tids": [""], "settle": True}, Q]))
     if fam == "life":
         # Stop while a get response is queued on the cache and the connection's dispose is queued on the connection:
         # the late Loaded closure runs behind the dispose closure, after the cache workers were stopped
